@@ -12,6 +12,9 @@ open Edp Edp.Frag
   `c:<now>`                              cleanup_expired    → `c<removed>`
   `p`                                    pending_count      → `p<count>`
   `x`                                    clear              → `x`
+  `fs:<now>:<seq>:<fid>:<n|=hex>:=<hex>` one received frame of a connection (`Assembler.onFrame`): cleanup_expired, then start_fragment
+  `fa:<now>:<seq>:<fid>:=<hex>`          the same with add_fragment
+  `ft:<now>`                             a frame that is no fragment (tick, message): cleanup_expired only → `-`
   results joined by `,`.
 `c09spec <once|full> <seq> <n|=hex> =<msghex> <lens csv|-> <arrival csv> <outs csv>` — the protocol's reference receiver
   (`Spec.Frag.Ref`) run over the arrival (fragment ids of `Spec.Frag.split`, `j<id>` = junk continuation with that id),
@@ -54,6 +57,25 @@ private def c09Step (a : Assembler) (w : String) : Except String (Assembler × S
     let now ← c09Nat now
     let (a', k) := a.cleanupExpired now
     pure (a', "c" ++ toString k)
+  | ["fs", now, q, fid, cache, data] => do
+    let now ← c09Nat now
+    let q ← c09Nat q
+    let fid ← c09Nat fid
+    let cache ← c09Opt cache
+    let data ← c09Hex data
+    let (a', o) := a.onFrame now (some (.start now q fid cache data))
+    pure (a', c09Out o)
+  | ["fa", now, q, fid, data] => do
+    let now ← c09Nat now
+    let q ← c09Nat q
+    let fid ← c09Nat fid
+    let data ← c09Hex data
+    let (a', o) := a.onFrame now (some (.add now q fid data))
+    pure (a', c09Out o)
+  | ["ft", now] => do
+    let now ← c09Nat now
+    let (a', o) := a.onFrame now none
+    pure (a', c09Out o)
   | ["p"] => pure (a, "p" ++ toString a.pendingCount)
   | ["x"] => pure (a.clear, "x")
   | _ => .error ("bad-c09-op " ++ w)
